@@ -1,7 +1,8 @@
 (* Properties/C11.v — Money converter yields the right rate for every update
    history and date.  Statements only; proofs in Proofs/C11Proofs.v. *)
 From Coq Require Import ZArith QArith List Bool.
-From QV Require Import Model.Num Model.Rates Model.MoneyConv Proofs.C11Proofs Gen.MoneyConvImpl Proofs.GenMoneyConvEq.
+From QV Require Import Model.Num Model.Rates Model.MoneyConv Proofs.C11Proofs Gen.MoneyConvImpl Proofs.GenMoneyConvEq
+     Model.Effects Proofs.EffectsProofs Gen.EffectsImpl.
 Import ListNotations.
 Open Scope Z_scope.
 
@@ -314,3 +315,13 @@ Proof.
   intros. split; [apply get_rate_key_impl_eq|]. split; [apply get_rate_impl_eq | apply call_impl_eq].
 Qed.
 Print Assumptions C11_model_is_translated_code.
+
+(* "mixing kinds of validity is rejected without changing the converter" (and so
+   is every other rejected update) as a statement about the code's control flow:
+   the body of MoneyConverter.update, re-translated on every run into the effect
+   language of Model/Effects.v, raises only before its first write to the
+   converter (kind of validity, rate table) *)
+Theorem C11_update_raises_before_it_writes :
+  forall w', ex_l converter_update_prog false Exc w' -> w' = false.
+Proof. apply atomic_sound. vm_compute. reflexivity. Qed.
+Print Assumptions C11_update_raises_before_it_writes.
